@@ -233,6 +233,14 @@ NTF = obj(
     F("y", ann(NZ, max=9), default=V("0")),
     F("s", newtype("Nls", STR, max_len=0), default=V("''"), schema=(("min_len", 0),)),
 )
+# inherited discriminators: parent a plain class (the documented form) or a dataclass with a
+# field; the subclasses also used on their own and as field types
+INH_PLAIN_SRC = '@discriminator("type")\nclass DPlain:\n    pass\n'
+PA = obj("PA", F("x", INT), bases="DPlain")
+PB = obj("PB", F("y", STR, default=V("''")), bases="DPlain")
+INH_FIELDS_SRC = '@discriminator("type")\n@dataclass\nclass FBase:\n    n: int = 0\n'
+FA = obj("FA", F("n", INT, default=V("0")), F("x", INT, default=V("0")), bases="FBase")
+FB = obj("FB", F("n", INT, default=V("0")), F("y", STR, default=V("''")), bases="FBase")
 OBJECTS: Dict[str, Tuple[Sp, str]] = {
     "NtField": (NTF, ""),
     "ReqOpt": (REQOPT, ""),
@@ -240,6 +248,9 @@ OBJECTS: Dict[str, Tuple[Sp, str]] = {
     "ann(nt0,looser)": (ann(newtype("Nz2", INT, min=0), min=-5), ""),
     "ann(str0,looser)": (ann(newtype("Ns0", STR, max_len=0), max_len=2), ""),
     "Inherit": (INH, INH_SRC),
+    "DiscSub": (PA, INH_PLAIN_SRC),
+    "DiscSubHolder": (obj("DHold", F("c", PA), F("k", INT, default=V("0"))), INH_PLAIN_SRC),
+    "DiscSub(fields)": (FA, INH_FIELDS_SRC),
     "ann(nt0)": (ann(NZ, max=5), ""),
     "list0": (ann(lst(INT), max_items=0), ""),
     "A": (A, ""),
@@ -459,6 +470,8 @@ UNION_EXTRA: Dict[str, Tuple[Sp, str]] = {
     "disc(same-shape)": (disc("type", (("DA2", "DA2"), ("DB2", "DB2")), DA2, DB2), ""),
     "disc(literal)": (disc("kind", (("la", "LA"), ("lb", "LB"), ("lb2", "LB")), LA, LB), ""),
     "disc(inherited)": (disc("type", (("IA", "IA"), ("IB", "IB")), IA, IB, inherited="DBase"), INH_DISC_SRC),
+    "disc(inherited,plain)": (disc("type", (("PA", "PA"), ("PB", "PB")), PA, PB, inherited="DPlain"), INH_PLAIN_SRC),
+    "disc(inherited,fields)": (disc("type", (("FA", "FA"), ("FB", "FB")), FA, FB, inherited="FBase"), INH_FIELDS_SRC),
     "list(disc)": (lst(disc("type", (("DA", "DA"), ("DB", "DB")), DA, DB)), ""),
     "tagged": (TU, TU_SRC),
 }
